@@ -27,6 +27,9 @@ def main():
     from . import regexast, absint
     toks = regexast.tokens(regexast.parse(r'([a-z/]+.kt):\d+:[ ]+error:[ ]+(.*)'))
     assert any("error: " in t for _a, _b, t in regexast.literal_runs(toks))
+    assert regexast.may_match(toks, "a/b.kt:3: error: m")
+    assert not regexast.may_match(toks, "a/b.kt:3: warning: m")
+    assert not regexast.may_match(regexast.tokens(regexast.parse(r'x:[ ]+\d+:')), "x: -1:")
     # finite-domain evaluation
     f = ast.parse("def f(c, x):\n    if c is None or x:\n        return 'A'\n    v = ['A'] + (['B'] if g.flag else [])\n    return pick(v)\n").body[0]
     r = absint.run(f, {"c": 1, "x": False}, {"g.flag": True, "pick()": lambda env, l: absint.Choice(l)})
@@ -41,7 +44,9 @@ def main():
         open(os.path.join(d, "src", "__init__.py"), "w").write("")
         open(os.path.join(d, "src", "m.py"), "w").write(
             "from copy import deepcopy\n"
-            "def f(a, b):\n    c = deepcopy(a)\n    c.x = 1\n    b.y = 2\n    l = []\n    l.append(b)\n    s = b.items[1:]\n    s[0] = 3\n")
+            "def f(a, b):\n    c = deepcopy(a)\n    c.x = 1\n    b.y = 2\n    l = []\n    l.append(b)\n    s = b.items[1:]\n    s[0] = 3\n"
+            "    t = (a, b)\n    u, v = t\n    v.z = 4\n    w = K(a)\n    w.k.q = 5\n    w.j.q = 6\n"
+            "class K:\n    def __init__(self, a):\n        self.k = deepcopy(a)\n        self.j = a\n")
         rp = repo.Repo(d)
         E = Effects(rp)
         effs = {e.text(): sorted(e.tags) for e in E.local(rp.fn("src.m.f"))}
@@ -49,6 +54,11 @@ def main():
         assert effs["b.y = 2"] == ["param:b"], effs
         assert effs["l.append(b)"] == ["fresh"], effs
         assert effs["s[0] = 3"] == ["fresh"], effs
+        from .irwrites import classify
+        cats = {e.text(): classify(rp.fn("src.m.f"), e)[0] for e in E.local(rp.fn("src.m.f"))}
+        assert cats["v.z = 4"] == "ir-write", (cats, effs)        # an element of a fresh tuple is not fresh
+        assert cats["w.k.q = 5"] == "fresh", (cats, effs)         # constructor binds the field to a deep copy
+        assert cats["w.j.q = 6"] == "ir-write", (cats, effs)      # ... and this one to its argument
     finally:
         shutil.rmtree(d, ignore_errors=True)
     print("hsa selftest ok (compiled=%s)" % bool(ok))
